@@ -65,6 +65,7 @@ pub fn dispatch(args: &[String]) -> i32 {
         "replay-wire" => wire::replay(&a),
         "replay-identity" => ident::replay(&a),
         "replay-codegen" => codegen::replay(&a),
+        "codegen-cancel" => codegen::cancel(&a),
         "replay-router" => router::replay(&a),
         "replay-rate" => tower::replay_rate(&a),
         "rate-hint-probe" => tower::rate_hint_probe(&a),
